@@ -53,7 +53,7 @@ def expr_of_operand(fn, o, depth=0, seen=None):
             return E("const", o["v"], o.get("name"))
         if "fn" in o:
             return E("fnitem", o["fn"], o.get("fn_key"))
-        return E("const", None, o.get("name"), o.get("txt"))
+        return E("const", None, o.get("name") or o.get("tyconst"), o.get("txt") or o.get("tyconst"))
     if o.get("k") in ("copy", "move"):
         return expr_of_place(fn, o, depth, seen)
     return E("unknown")
